@@ -10,6 +10,8 @@ ANY = "Exception*"
 
 # callee (fully qualified through the importing module) -> classes it may raise for *input-dependent* arguments
 EXTERNAL = {
+    # DistinctCount: the count expression is compiled to look at its names; NUL characters give ValueError
+    "builtins.compile": ("builtins.SyntaxError", "builtins.ValueError"),
     "os.path.getsize": ("builtins.OSError",), "os.stat": ("builtins.OSError",),  # a path that does not exist
     # number / character conversion of CID or data text
     "builtins.int": ("builtins.ValueError",),  # int("x"), int("07", 0)
